@@ -63,7 +63,10 @@ func runC09(c *core.Ctx) {
 		st := cv.S.TypeInfo
 		b := st.Bits
 		f32 := cv.D.Bits == 32
-		sc := newScanner(cv)
+		sc := newScannerCh(cv, 1+ti%3)
+		preludeCheck(c, sc, name, caseID, rawOfAmp(st, 0), rawOfAmp(st, minAmp(st.Bits)), rawOfAmp(st, maxAmp(st.Bits)),
+			func(raw uint64) bool { return math.Float64frombits(raw) == 0 })
+		chunkNo := 0
 		inv := inverseConv(cv)
 		var back *scanner
 		rtExact := b <= 32 && !f32
@@ -87,6 +90,14 @@ func runC09(c *core.Ctx) {
 				return
 			}
 			out := sc.conv(in)
+			if chunkNo++; t.list || chunkNo%8 == 1 {
+				if idx, got := sc.orderCheck(in, out); idx >= 0 {
+					viol++
+					c.Violate(name+"|order-dependence", caseID, fmt.Sprintf("source amplitude %d converts to %v in an ascending buffer and to %v when the buffer is reversed", amp(st, in[idx]), math.Float64frombits(out[idx]), math.Float64frombits(got)),
+						map[string]any{"fn": name, "source_amplitude": amp(st, in[idx]), "position": idx, "buffer_len": len(in), "channels": sc.ch})
+				}
+				c.Obs("chunks_also_converted_in_reverse_order", 1)
+			}
 			var rt []uint64
 			if back != nil {
 				tmp := append([]uint64(nil), out...)
